@@ -168,3 +168,70 @@ Proof.
   destruct (connectNonNamedObjArgs f6 0 s1) as [[r6 s2]| |]; try contradiction.
   destruct (negb (pres_eqb r6 ROk)); unfold ret; exact W6.
 Qed.
+
+(** ---- the inner loops of the resolve passes run on their own fuel, [poolFuel] = pool size + 2: it suffices ---- *)
+(** insideSelf (relocateNamedObjects, commit 648a1d7) climbs the parent links: one unit of fuel per ancestor *)
+Lemma insideSelf_ret : forall fuel a obj s g k, TI s g -> glive g a -> Depth (p_tree s) a k -> (k + 2 <= fuel)%nat ->
+  wp False (insideSelf_go fuel (Some a) obj) s (fun _ s' => s' = s).
+Proof.
+  induction fuel as [|fuel IH]; intros a obj s g k H Hl Hd Hf; [lia|]. cbn [insideSelf_go].
+  pose proof (ti_R _ _ H) as HR.
+  destruct (N.eqb_spec a obj) as [E|E].
+  { apply wp_ret. reflexivity. }
+  destruct (TI_live_get _ _ _ H Hl) as (ao & Hao & Hlao).
+  apply wp_bind. apply wp_rdf. exists ao. split; [exact Hao|].
+  apply wp_bind, wp_get.
+  destruct (parent_link _ _ _ _ H Hao Hlao) as [(Ep & Hroot)|(Ep & Hin & Hlp)].
+  - rewrite Ep. assert (Hn : ObjectAt (p_tree s) InvalidIndex = None).
+    { destruct (ObjectAt (p_tree s) InvalidIndex) as [q|] eqn:Eo; [|reflexivity].
+      destruct (ObjectAt_some _ _ _ Eo) as (_ & o' & Ho' & _). exfalso. eapply (R_pos_not_Inv _ _ HR); eauto. }
+    rewrite Hn. destruct fuel as [|fuel]; [lia|]. cbn [insideSelf_go]. apply wp_ret. reflexivity.
+  - rewrite (TI_ObjectAt _ _ _ H Hlp).
+    inversion Hd as [i o Hg _ Hp|i o k' Hg _ _ Hd']; subst; assert (o = ao) by congruence; subst o; [contradiction|].
+    apply (IH (o_parent ao) obj s g k' H Hlp Hd'). lia.
+Qed.
+
+Theorem insideSelf_poolFuel : forall a obj s g, TI s g -> glive g a ->
+  wp False (mlet pf <~ poolFuel ;; insideSelf_go pf (Some a) obj) s (fun _ s' => s' = s).
+Proof.
+  intros a obj s g H Hl. unfold poolFuel. apply wp_bind, wp_get.
+  destruct (live_depth _ _ (ti_R _ _ H) a Hl) as (k & Hd). pose proof (Depth_bound _ _ _ Hd).
+  apply (insideSelf_ret _ a obj s g k H Hl Hd). lia.
+Qed.
+
+(** scopeOf walks the children of the target until it meets a ScopeBlock: one unit of fuel per child *)
+Lemma nestedScope_ret : forall fuel idx p l1 l2 s g, TI s g -> glive g p -> kids g p = l1 ++ l2 -> idx = hd InvalidIndex l2 ->
+  (length l2 + 1 <= fuel)%nat -> wp False (nestedScope_go fuel idx) s (fun _ s' => s' = s).
+Proof.
+  induction fuel as [|fuel IH]; intros idx p l1 l2 s g H Hlp Hk Hidx Hf; [lia|]. cbn [nestedScope_go].
+  pose proof (ti_R _ _ H) as HR.
+  destruct l2 as [|c l2']; cbn [hd] in Hidx; subst idx.
+  { rewrite N.eqb_refl. apply wp_ret. reflexivity. }
+  assert (Hin : In c (kids g p)) by (rewrite Hk; apply in_or_app; right; left; reflexivity).
+  destruct ((R_gwf _ _ HR) _ _ Hin) as (_ & Hl).
+  destruct (sibling_links _ _ HR _ l1 c l2' Hlp Hk) as (o & Ho & Hlo & _ & _ & En & _).
+  assert (Ec : (c =? InvalidIndex) = false) by (apply N.eqb_neq; eapply (R_pos_not_Inv _ _ HR); eauto).
+  rewrite Ec.
+  apply wp_bind. apply wp_objectAt'; [apply (TI_ObjectAt _ _ _ H Hl)|].
+  apply wp_bind. apply wp_rdf. exists o. split; [exact Ho|].
+  destruct (o_opcode o =? aml_pOpIntScopeBlock); [apply wp_ret; reflexivity|].
+  apply wp_bind. apply wp_rdf. exists o. split; [exact Ho|]. rewrite En.
+  apply (IH (hd InvalidIndex l2') p (l1 ++ [c]) l2' s g H Hlp); [rewrite <- app_assoc; exact Hk|reflexivity|cbn [length] in Hf; lia].
+Qed.
+
+Theorem scopeOf_returns : forall target s g, TI s g -> glive g target ->
+  wp False (scopeOf target) s (fun _ s' => s' = s).
+Proof.
+  intros target s g H Hl. unfold scopeOf, poolFuel. pose proof (ti_R _ _ H) as HR.
+  apply wp_bind. apply wp_objectAt'; [apply (TI_ObjectAt _ _ _ H Hl)|].
+  destruct (TI_live_get _ _ _ H Hl) as (o & Ho & Hlo).
+  apply wp_bind. apply wp_rdf. exists o. split; [exact Ho|].
+  destruct (o_opcode o =? aml_pOpIntScopeBlock); [apply wp_ret; reflexivity|].
+  apply wp_bind. apply wp_rdf. exists o. split; [exact Ho|].
+  apply wp_bind, wp_get.
+  destruct (R_kids _ _ HR _ _ Ho Hlo) as (Hf & _ & _ & Hnd).
+  apply (nestedScope_ret _ (o_first o) target [] (kids g target) s g H Hl eq_refl Hf).
+  assert (Hb : (length (kids g target) <= length (t_pool (p_tree s)))%nat).
+  { apply nodup_bound; [exact Hnd|]. intros y Hy. rewrite <- (R_len _ _ HR). eapply glive_lt. apply ((R_gwf _ _ HR) _ _ Hy). }
+  lia.
+Qed.
